@@ -409,7 +409,7 @@ pub fn subs() -> Vec<Sub> {
 }
 
 pub fn run(env: &mut Env) -> RunResult {
-    let n = env.tier.sel(2_500, 80_000);
+    let n = env.tier.sel(2_500, 40_000);
     env.run_tapes(SUB_V3, n, 120)?;
     env.run_tapes(SUB_V5, n * 2, 220)?;
     env.run_tapes(SUB_T3, n, 120)?;
